@@ -385,6 +385,9 @@ def run(rep: Report, tier: str) -> None:
                       "a model table): an accepted `YYYY-MM-DD HH:MM:SS.ffffff` value is not returned as a bare date")
     from sa.checks.c18 import fetch_time_format as _ftf
     _ftf(P, rep, "R19.8")
+    # ---- R19.9: every dataset given as a DataFrame becomes a (validated) table ----
+    rep.rule("R19.9", "register_dataframes creates the table of every dataset of the script on every path of its loop (only `name not in input_datasets` skips)")
+    every_dataframe_becomes_a_table(P, rep, "R19.9")
     rep.assumptions = ["DuckDB regexp_matches has search semantics (patterns are anchored explicitly)",
                        "the load regex is applied to the value after vtl_period_normalize (read from _validate_loaded_table)",
                        "DuckDB read_csv with an integral column type rounds fractional literals instead of rejecting them (observed once on the installed DuckDB while writing R19.4)"]
@@ -469,3 +472,44 @@ def limit_before_filter(P: Program, rep: Report, rule: str) -> None:
                                 f"`{' '.join(sk.text.split())[:130]}`: the LIMIT cuts the derived table to its first row(s) BEFORE the outer query filters it, so only the first stored "
                                 f"row(s) are examined: a malformed value further down the table passes run() while validate_dataset() (which checks every value) rejects it"))
     rep.instance(rule, "nested-LIMIT-sites", nontrivial=False, sample={"LIMIT inside a derived table": n})
+
+
+def every_dataframe_becomes_a_table(P: Program, rep: Report, rule: str) -> None:
+    """register_dataframes: on every normal path through the loop body a table is created for the dataset (CREATE TABLE from
+    build_create_table_sql), whatever the DataFrame holds - the only skip is the membership guard `name not in input_datasets`.  A dataset
+    without datapoints is still an operand: union / intersect / setdiff / symdiff (and every other operator) must find its (empty) table.
+    Shared between C05 and C19."""
+    import copy
+    f = P.func(f"{IO}.register_dataframes")
+    loops = [n for n in walk_no_nested(f.node) if isinstance(n, ast.For)]
+    if len(loops) != 1:
+        raise AnalysisError(f"register_dataframes: expected one loop over the DataFrames, found {len(loops)}")
+    fn = copy.deepcopy(f.node)
+    loop = [n for n in ast.walk(fn) if isinstance(n, ast.For)][0]
+    dict_params = set(f.params)
+
+    def membership_guard(st: ast.stmt) -> bool:
+        return (isinstance(st, ast.If) and not st.orelse and len(st.body) == 1 and isinstance(st.body[0], ast.Continue) and isinstance(st.test, ast.Compare)
+                and len(st.test.ops) == 1 and isinstance(st.test.ops[0], ast.NotIn) and isinstance(st.test.comparators[0], ast.Name) and st.test.comparators[0].id in dict_params
+                and isinstance(st.test.left, ast.Name))
+    guards = [st for st in loop.body if membership_guard(st)]
+    loop.body = [st for st in loop.body if not membership_guard(st)] or [ast.Pass()]
+    g = CFG(fn, for_nonempty=True)
+    creates = [n for n in g.nodes if n.stmt is not None and any(isinstance(c, ast.Call) and any(isinstance(x, ast.Call) and (getattr(x.func, "id", "") or getattr(x.func, "attr", "")) == "build_create_table_sql"
+                                                                                                   for x in ast.walk(c)) for c in g.calls_at(n))]
+    # a create statement hoisted into a local first: `sql = build_create_table_sql(...); conn.execute(sql)` counts at the assignment
+    if not creates:
+        raise AnalysisError("register_dataframes: no CREATE TABLE (build_create_table_sql) found in the loop (anchor changed)")
+    heads = [n for n in g.nodes if n.stmt is loop or (n.stmt is not None and getattr(n.stmt, "lineno", -1) == loop.lineno and n.kind in ("test", "loop", "for"))]
+    first = [n for n in g.nodes if n.stmt is loop.body[0]]
+    if not first or not heads:
+        raise AnalysisError("register_dataframes: loop nodes not found in the CFG")
+    rep.instance(rule, "register_dataframes/create-on-every-path", nontrivial=True, sample={"membership_guards": len(guards), "create_sites": len(creates)})
+    p = g.path_avoiding(first[0], lambda n: n in heads or n is g.exit, lambda n: n in creates, follow_exc=False)
+    if first[0] in creates:
+        p = None
+    if p is not None:
+        rep.add(Finding(rule, f"{rule}/register_dataframes/create-on-every-path", f.module.rel, loop.lineno, f.qualname,
+                        "register_dataframes can finish an iteration for a dataset of the script without creating its table (a skip that is not the `name not in input_datasets` guard): "
+                        "an operand given as a DataFrame without datapoints then has no table, and the statement that reads it fails with a raw CatalogException instead of working "
+                        "on an empty dataset", describe_path(p)))
